@@ -4,6 +4,7 @@
    Numbers are integers (Z): + - * exact; / only when exact, ** only for exponents 0..64; any other
    numeric result is VPoison ("a number the model does not compute"), which the check skips.  *)
 From Coq Require Import List ZArith NArith Bool.
+From DV Require C16.Model.
 Import ListNotations.
 Open Scope Z_scope.
 
@@ -25,7 +26,7 @@ Inductive expr :=
 | EFor (ds : list (N * dom)) (body : expr)
 | ESome (ds : list (N * expr)) (body : expr)
 | EEvery (ds : list (N * expr)) (body : expr)
-| EFun (ps : list N) (body : expr)
+| EFun (ps : list (N * C16.Model.ftype)) (body : expr)      (* formal parameters with their declared types (Any when omitted) *)
 | ECall (f : expr) (args : list expr)
 | ECallN (f : expr) (args : list (N * expr))
 with test :=
@@ -38,7 +39,7 @@ Inductive value :=
 | VCtx (es : list (N * value))                (* BTreeMap: sorted by key, keys distinct *)
 | VRange (lo : value) (lc : bool) (hi : value) (hc : bool)
 | VUnary (o : cmpop) (v : value)              (* Value::UnaryLess … *)
-| VFun (ps : list N) (body : expr)
+| VFun (ps : list (N * C16.Model.ftype)) (body : expr)
 | VPoison.
 
 Definition ctx := list (N * value).
@@ -307,4 +308,38 @@ Definition cart_impl (ds : list (N * list value)) : list ctx :=
   match filter (fun d => match snd d with [] => false | _ => true end) ds with
   | [] => []
   | ne => cart ne
+  end.
+
+(* ---------- types of values and coercion of arguments: FeelType::coerced on Value::type_of (feel/src/types.rs, values.rs).
+   The relations on types are those of coq/C16/Model.v (imported, not copied). ---------- *)
+Module T := C16.Model.
+Fixpoint type_of1 (v : value) : T.ftype :=
+  match v with
+  | VNull => T.TS T.SNull
+  | VBool _ => T.TS T.SBoolean
+  | VNum _ => T.TS T.SNumber
+  | VStr _ => T.TS T.SString
+  | VList vs =>
+      match vs with
+      | [] => T.TList (T.TS T.SNull)
+      | x :: _ => let t := type_of1 x in if forallb (fun y => T.type_eqb (type_of1 y) t) vs then T.TList t else T.TList (T.TS T.SAny)
+      end
+  | VCtx es => T.TCtx (map (fun e => (fst e, type_of1 (snd e))) es)
+  | VRange lo _ hi _ => let a := type_of1 lo in let b := type_of1 hi in if T.type_eqb a b then T.TRange a else T.TRange (T.TS T.SAny)
+  | VUnary _ _ => T.TS T.SBoolean
+  | VFun ps _ => T.TFun (map snd ps) (T.TS T.SAny)
+  | VPoison => T.TS T.SAny
+  end.
+
+Definition coerced1 (target : T.ftype) (v : value) : value :=
+  if poison v then VPoison else
+  if T.conformant (type_of1 v) target then v else
+  let wrap := match target with
+              | T.TList item => if T.conformant (type_of1 v) item then Some (VList [v]) else None
+              | _ => None end in
+  match wrap with
+  | Some w => w
+  | None => match v with
+            | VList [x] => if T.conformant (type_of1 x) target then x else VNull
+            | _ => VNull end
   end.
